@@ -266,7 +266,15 @@ def run(ctx: Any, prog: Program) -> None:
     # "nothing inside" into an exception, which also aborts a chain walk that includes this member.
     rwf = rawm['walk_folder']
     walks = [c for c in ast.walk(rwf) if isinstance(c, ast.Call) and dotted(c.func) in ('os.walk', 'walk')]
-    ctx.shape('C19.H2', len(walks) == 1, fs, rwf, f'{len(walks)} os.walk() calls in RawFileSystem.walk_folder (1 confirmed by hand)', func='RawFileSystem.walk_folder', text='RawFileSystem.walk_folder: os.walk')
+    # enumeration through glob patterns: `*` and `**` never match a name that begins with a dot (unless include_hidden=True is passed), so dot
+    # files and everything under dot folders disappear from the walk while lookups - and the other backends - still have them
+    globs = [c for c in ast.walk(rwf) if isinstance(c, ast.Call) and dotted(c.func) in ('glob.glob', 'glob.iglob', 'iglob', 'glob')]
+    for gc in globs:
+        hidden = next((k.value for k in gc.keywords if k.arg == 'include_hidden'), None)
+        ctx.check('C19.H2', isinstance(hidden, ast.Constant) and hidden.value is True, fs, gc, f'RawFileSystem.walk_folder lists the folder with `{U(gc)[:70]}`: glob patterns skip every name that starts with "." (dot files, and all '
+                  'files under dot folders), which `name in fs`, `fs[name]` and the in-memory / zip / VPK backends do have', func='RawFileSystem.walk_folder', text='RawFileSystem.walk_folder: every file is listed')
+    if not globs:
+        ctx.shape('C19.H2', len(walks) == 1, fs, rwf, f'{len(walks)} os.walk() calls in RawFileSystem.walk_folder (1 confirmed by hand)', func='RawFileSystem.walk_folder', text='RawFileSystem.walk_folder: os.walk')
     for wk in walks:
         oe = next((k.value for k in wk.keywords if k.arg == 'onerror'), wk.args[2] if len(wk.args) >= 3 else None)
         if oe is None or (isinstance(oe, ast.Constant) and oe.value is None):
@@ -470,6 +478,34 @@ def run(ctx: Any, prog: Program) -> None:
         ctx.check('C19.H4', not bad_rel, fs, bad_rel[0] if bad_rel else wr, 'FileSystemChain.walk_folder_repeat strips the member prefix with os.path.relpath(), which compares case-sensitively: a member that stores `Materials/dev/a.vmt` '
                   'under the chain prefix `materials` is reported as `../Materials/dev/a.vmt` instead of `dev/a.vmt` (and is not de-duplicated against the same name from another member)', func='FileSystemChain.walk_folder_repeat',
                   text='prefix stripped case-insensitively on walk')
+    # every name the walk reports is relative to the chain and in normal form: it is either what is left of the member's name after the prefix
+    # (a slice), or went through os.path.relpath / normpath.  A member's own spelling handed on untouched (`./cfg/a.cfg`, `cfg//a.cfg` - the
+    # in-memory backend lists its keys as given) is a second name for a file another member lists as `cfg/a.cfg`: listed twice, and the
+    # second entry is the lower-priority file
+    def _strip_replace(e: ast.AST) -> ast.AST:
+        while isinstance(e, ast.Call) and isinstance(e.func, ast.Attribute) and e.func.attr in ('replace', 'strip', 'lstrip', 'rstrip'):
+            e = e.func.value
+        return e
+    n_y = 0
+    for y_ in ast.walk(wr):
+        if not (isinstance(y_, ast.Yield) and isinstance(y_.value, ast.Call) and dotted(y_.value.func) == 'File' and len(y_.value.args) >= 2):
+            continue
+        n_y += 1
+        name_e = y_.value.args[1]
+        defs_y = [name_e]
+        if isinstance(name_e, ast.Name):
+            scope_y = next((a for a in _anc19(fs, y_, wr) if isinstance(a, ast.For)), wr)
+            defs_y = [a.value for a in ast.walk(scope_y) if isinstance(a, ast.Assign) and any(isinstance(t, ast.Name) and t.id == name_e.id for t in a.targets)] or [name_e]
+        for d_ in defs_y:
+            core_ = _strip_replace(d_)
+            normal = (isinstance(core_, ast.Call) and dotted(core_.func) in ('os.path.relpath', 'os.path.normpath', 'posixpath.normpath', 'posixpath.relpath')) or isinstance(core_, ast.Subscript)
+            raw_member = isinstance(core_, ast.Attribute) and core_.attr in ('path', 'filename')
+            if not normal and not raw_member:
+                ctx.shape('C19.H4', False, fs, y_, f'name reported by the chain walk (`{U(d_)[:50]}`) not recognised', func='FileSystemChain.walk_folder_repeat', text='chain walk reports normalised names')
+                continue
+            ctx.check('C19.H4', normal, fs, y_, f'FileSystemChain.walk_folder_repeat reports `{U(d_)[:60]}` - the name exactly as the member spells it: an in-memory member lists `./cfg/a.cfg` or `cfg//a.cfg` as given, so '
+                      'the same file appears under two names in the de-duplicated walk, the second one with the lower-priority content', func='FileSystemChain.walk_folder_repeat', text='chain walk reports normalised names')
+    ctx.shape('C19.H4', n_y >= 1, fs, wr, 'no `yield File(self, <name>, ...)` found in walk_folder_repeat', func='FileSystemChain.walk_folder_repeat', text='chain walk yields')
     ctx.shape('C19.H4', any(isinstance(l_, ast.For) and dotted(l_.iter) == 'self.systems' for l_ in walk_no_nested(wr)), fs, wr, 'walk must visit members in priority order', func='FileSystemChain.walk_folder_repeat', text='walk in list order')
     wf = ch['walk_folder']
     src = U(wf)
@@ -529,6 +565,8 @@ def run(ctx: Any, prog: Program) -> None:
 
 
 MUTANTS = [
+    {'id': 'chain_walk_unprefixed_member_names_untouched', 'file': 'filesys.py', 'find': "            full_folder = os.path.join(prefix, folder).replace('\\\\', '/')\n            # The prefix to strip again.", 'replace': "            full_folder = os.path.join(prefix, folder).replace('\\\\', '/')\n            if not prefix:\n                for file in sys.walk_folder(full_folder):\n                    yield File(self, file.path.replace('\\\\', '/'), file)\n                continue\n            # The prefix to strip again.", 'expect': 'C19.H4'},
+    {'id': 'raw_walk_by_glob', 'file': 'filesys.py', 'find': "        for dirpath, dirnames, filenames in os.walk(path):\n            for file in filenames:\n                rel_path = os.path.relpath(\n                    os.path.join(dirpath, file),\n                    self.path,\n                ).replace('\\\\', '/')\n                yield File(self, rel_path, rel_path)", 'replace': "        import glob\n        for name in glob.iglob('**', root_dir=path, recursive=True):\n            if os.path.isfile(os.path.join(path, name)):\n                rel_path = os.path.relpath(os.path.join(path, name), self.path).replace('\\\\', '/')\n                yield File(self, rel_path, rel_path)", 'expect': 'C19.H2'},
     {'id': 'chain_walk_last_member_wins', 'file': 'filesys.py', 'find': "        done: set[str] = set()\n        for file in self.walk_folder_repeat(folder):\n            folded = file.path.casefold()\n            if folded in done:\n                continue\n            done.add(folded)\n            yield file\n", 'replace': "        found = {}\n        for file in self.walk_folder_repeat(folder):\n            found[file.path.casefold()] = file\n        yield from found.values()\n", 'expect': 'C19.H4'},
     {'id': 'ok_chain_walk_setdefault', 'file': 'filesys.py', 'find': "        done: set[str] = set()\n        for file in self.walk_folder_repeat(folder):\n            folded = file.path.casefold()\n            if folded in done:\n                continue\n            done.add(folded)\n            yield file\n", 'replace': "        found = {}\n        for file in self.walk_folder_repeat(folder):\n            found.setdefault(file.path.casefold(), file)\n        yield from found.values()\n", 'expect': None, 'note': 'negative control: mapping form that keeps the first'},
     {'id': 'raw_walk_onerror_raises', 'file': 'filesys.py', 'find': "        for dirpath, dirnames, filenames in os.walk(path):", 'replace': "        def fail(exc: OSError) -> None:\n            raise exc\n        for dirpath, dirnames, filenames in os.walk(path, onerror=fail):", 'expect': 'C19.H2'},
